@@ -264,6 +264,48 @@ def _raise_guarded(handler, r) -> bool:
     return False
 
 
+FAILABLE_ATTRS = {"peername": "getpeername() fails on a connection that was reset between accept() and the start of the client task"}
+
+
+def check_failable_lookups(eng, run):
+    """`X.extra(<attr>)` without a default raises TypedAttributeLookupError (a LookupError) when the attribute's getter fails.
+    In per-connection set-up code that runs *before* the per-client catch-all is entered, a lookup of an attribute whose
+    getter can fail at run time must pass a default (or sit under a handler that catches LookupError/Exception)."""
+    db = eng.db
+    n = 0
+    srv = db.cls("servers.async_tcp.AsyncTCPNetworkServer")
+    init = srv.methods.get("__client_initializer")
+    if init is None:
+        raise AnalysisError("anchor vanished: AsyncTCPNetworkServer.__client_initializer")
+    # the catch-all is entered by the statement that registers the suppress context
+    reg_line = min((c.lineno for c in own_nodes(init.node) if isinstance(c, ast.Call) and "suppress_and_log" in ast.unparse(c)), default=None)
+    if reg_line is None:
+        run.finding("C17.setup", init, init.node, "the per-client initializer no longer enters its suppress-and-log context")
+        run.ob("C17.setup", f"{init.short}:failable-lookups-have-defaults", False)
+        return
+    bad = []
+    for c in own_nodes(init.node):
+        if isinstance(c, ast.Call) and isinstance(c.func, ast.Attribute) and c.func.attr == "extra" and c.lineno < reg_line and c.args:
+            attr = ast.unparse(c.args[0]).split(".")[-1]
+            if attr in FAILABLE_ATTRS:
+                n += 1
+                has_default = len(c.args) > 1 or any(k.arg == "default" for k in c.keywords)
+                guarded = False
+                for t in [x for x in own_nodes(init.node) if isinstance(x, ast.Try)]:
+                    if any(c in list(ast.walk(b)) for b in t.body):
+                        for h in t.handlers:
+                            names = eng.lattice.handler_classes(init, h.type)
+                            if eng.lattice.match(names, "LookupError", ()) == "must":
+                                guarded = True
+                if not (has_default or guarded):
+                    bad.append((c, attr))
+    for c, attr in bad:
+        run.finding("C17.setup", init, _stmt_at(init, c.lineno), f"`extra({attr})` without a default before the per-client catch-all is entered: {FAILABLE_ATTRS[attr]}; the TypedAttributeLookupError (a LookupError, not an OSError) escapes the client task and stops the whole server")
+    run.ob("C17.setup", f"{init.short}:failable-lookups-have-defaults", not bad, lookups=n)
+    if n == 0:
+        raise AnalysisError("anchor vanished: peername lookup in the per-client initializer")
+
+
 def check_roots(eng, run):
     """Per-client task roots that only forward: no explicit raise of an Exception subclass besides argument validation."""
     db = eng.db
@@ -299,6 +341,7 @@ def run(eng, run):
     check_hooks(eng, run, reg)
     check_disc(eng, run)
     check_setup(eng, run, reg)
+    check_failable_lookups(eng, run)
     check_roots(eng, run)
 
 
@@ -348,6 +391,10 @@ MUTANTS = [
             lambda fn: fn.body.append(ast.parse("raise exc").body[0]), "C17.setup"),
     Variant("dgram-handler-hook-above-initializer", _HD, _hook_above_with, "C17.hook"),
 ]
+
+MUTANTS.append(Variant("initializer-peername-without-default", _TCP + ".__client_initializer",
+                       lambda fn: replace_expr(fn, "lowlevel_client.extra(INETSocketAttribute.peername, None)", "lowlevel_client.extra(INETSocketAttribute.peername)"), "C17.setup",
+                       why="a client that resets right after accept() stops the server"))
 
 BENIGN = [
     Variant("tcp-suppress-inline-rename", _TCP + ".__suppress_and_log_remaining_exception", lambda fn: rename_local(fn, "excgrp", "group"), why="local renamed"),
